@@ -14,7 +14,8 @@ from sim import sched
 ID = 'C18'
 RULE = ('a case = (grammar architecture x method x constructor options incl. full_cost x single/dict cost spec) x '
         'a base schedule of 3-12 (thorough: up to 20) ops x 1-5 injected observer calls (export, export(add_bn=False), '
-        'summary, str, cost, get_cost(name), cost_specification switched and switched back, parameter listing), some '
+        'summary, str, cost, get_cost(name), cost_specification switched and switched back, parameter listing, '
+        'nas_parameters_summary / get_total_icv), some '
         'in the middle of a training step; distinct = distinct normalised (method, options, architecture features, '
         'op-label sequence with injection points); non-trivial = an observer fired after at least one state-changing op '
         'and before at least one evaluated comparison against the observer-free reference')
@@ -33,7 +34,7 @@ BASE_WEIGHTS = {'train_step': 6, 'backward_only': 1.5, 'opt_step': 1.5, 'forward
                 'set_mode': 1.5, 'train_group': 1, 'set_flag': 0.7, 'softmax_opts': 1.2, 'read_cost': 2.5,
                 'read_summary': 1}
 OBS_WEIGHTS = {'export': 5, 'export_nobn': 1.5, 'summary': 3, 'str': 0.7, 'cost': 2, 'get_cost': 1.5,
-               'switch_spec_and_back': 1.5, 'named_params': 0.5, 'state_dict': 0.3}
+               'switch_spec_and_back': 1.5, 'named_params': 0.5, 'state_dict': 0.3, 'nas_summary': 0.7}
 
 
 def budget(tier):
